@@ -896,6 +896,12 @@ func ConcatAll[T any]() func(Observable[Observable[T]]) Observable[T] {
 					subscriberCtx,
 					NewObserverWithContext(
 						func(ctx context.Context, source Observable[T]) {
+							if subscriptions.IsClosed() {
+								// the output already ended (an inner observable failed while a
+								// synchronous outer observable is still emitting): do not subscribe
+								return
+							}
+
 							sub := source.SubscribeWithContext(
 								ctx,
 								NewObserverWithContext(
